@@ -205,10 +205,12 @@ ReduceLaws(r) ==
 \* ---- observation law (floats, quantised) -----------------------------------------------------
 \* margins in units of 1e-6 (relative), residuals in units of 1e-12 (relative to max(1,|T|))
 Margin == 1000
-ObsApplicable(r) == r.thr >= Margin /\ r.pole >= Margin /\ r.mthr >= Margin /\ r.finite = 1
+ObsApplicable(r) == r.thr >= Margin /\ r.pole >= Margin /\ r.mthr >= Margin
 ObsLaws(r) ==
   /\ Clause("obs-precondition", ObsApplicable(r), <<r.cls, r.n, r.np, r.L, r.X, r.thr, r.pole, r.mthr>>)
-  /\ ObsApplicable(r) =>
+  \* a value that is not a finite number (NaN, leftover symbols) is an observation of its own
+  /\ ObsApplicable(r) => Clause("finite-observed", r.finite = 1, <<r.cls, r.n, r.np, r.L, r.X>>)
+  /\ (ObsApplicable(r) /\ r.finite = 1) =>
        /\ Clause("unitarity-observed", r.uq <= Tol, <<r.cls, r.n, r.np, r.L, r.X, r.uq>>)
        /\ Clause("symmetry-observed", r.sq <= Tol, <<r.cls, r.n, r.np, r.L, r.X, r.sq>>)
 
